@@ -44,17 +44,22 @@ def layouts(h, w, rng):
             ('4d_cl', (b, h, w, c), (1, 2))]
 
 
-def call_impl(api, fn, x, size):
+SIZE_TYPES = {'list': list, 'tuple': tuple, 'torch.Size': lambda s: torch.Size([int(e) for e in s]), 'NumPy integer array': lambda s: np.array(s, dtype=np.int64),
+              'list of NumPy integers': lambda s: [np.int64(e) for e in s], 'shape of a tensor': lambda s: torch.zeros([int(e) for e in s]).shape,
+              'shape of an array': lambda s: np.zeros([int(e) for e in s]).shape}
+
+
+def call_impl(api, fn, x, size, size_as='list'):
     import odak
     import odak.learn.tools
     import odak.tools
     if api == 'torch':
         f = getattr(odak.learn.tools, fn)
         t = torch.from_numpy(x.copy())
-        r = f(t) if size is None else f(t, size=list(size))
+        r = f(t) if size is None else f(t, size=SIZE_TYPES[size_as](size))
         return r.numpy()
     f = getattr(odak.tools, fn)
-    return f(x.copy()) if size is None else f(x.copy(), size=list(size))
+    return f(x.copy()) if size is None else f(x.copy(), size=SIZE_TYPES[size_as](size))
 
 
 def per_plane(arr, axes):
@@ -183,6 +188,22 @@ def run(ctx):
         if c.shape != x.shape or not np.array_equal(c, x):
             ctx.violation('crop_center(zero_pad(x)) != x (shape %s -> %s -> %s)' % (x.shape, p.shape, c.shape), rec,
                           dict(base, fn='crop_center', what='roundtrip'))
+        # ---- the explicit size handed over in the other ordinary types (a tuple, the .shape of a tensor or array, NumPy integers): same result
+        if ex:
+            for size_as in SIZE_TYPES:
+                if size_as == 'list':
+                    continue
+                ctx.count('size_given_as/' + size_as)
+                for fn_, arg_, sz_, want_ in (('zero_pad', x, size, p), ('crop_center', p, csize, c)):
+                    try:
+                        got_ = call_impl(api, fn_, arg_, sz_, size_as)
+                    except Exception:
+                        ctx.count('size_given_as/rejected: %s' % size_as)
+                        continue
+                    if got_.shape != want_.shape or not np.array_equal(got_, want_):
+                        ctx.violation('%s %s with size = %s given as %s returns shape %s, with the same size given as a list shape %s (contents %s)'
+                                      % (api, fn_, list(sz_), size_as, got_.shape, want_.shape, 'equal' if got_.shape == want_.shape and np.array_equal(got_, want_) else 'differ'),
+                                      dict(rec, size_as=size_as, fn=fn_), dict(base, fn=fn_, what='size_type', size_as=size_as))
         ck = (api, p.shape[axes[0]], p.shape[axes[1]], csize)
         if ck in cropmaps:
             m0, m1 = cropmaps[ck]
